@@ -226,3 +226,51 @@ def burst_history():
             st.just(['tick'])), min_size=4, max_size=30))
         return cfg, acts + tail
     return strat()
+
+
+# -- directed families found necessary by independently seeded changes -------------------------------------
+
+def restart_race_history():
+    """A restart whose load() overlaps with the delivery and removal of a freshly enqueued message."""
+    T = {'shape': 'raise_t', 'replies': [0]}
+    OK = {'shape': 'none'}
+
+    @st.composite
+    def strat(draw):
+        cfg = {'backend': draw(st.sampled_from(['disk', 'disk', 'cloud', 'redis', 'shelf'])),
+               'backoff': [draw(st.sampled_from([5, 0]))], 'backoff_forever': True}
+        k = draw(st.integers(2, 3))
+        acts = []
+        for _ in range(k):
+            acts.append(['enqueue', {'n': draw(st.integers(1, 2)), 'sender': True, 'body': ''}])
+            acts.append(['serve', T])
+        acts.append(['restart'])
+        acts.append(['enqueue', {'n': 1, 'sender': True, 'body': ''}])
+        # the new message is written, attempted and delivered while the load gate is still closed
+        tail = [['release', 1, OK], ['release', 1, OK], ['storage']]      # write, relay answer; then load and remove together
+        tail += draw(st.lists(st.one_of(st.just(['storage']), st.integers(0, 4).map(lambda i: ['release', i, OK]),
+                                        st.just(['tick']), st.just(['answer', OK])), max_size=8))
+        return cfg, acts + tail
+    return strat()
+
+
+def saturated_pool_history():
+    """A due message is dequeued while the bounded relay pool is full, and is announced again meanwhile."""
+    T = {'shape': 'raise_t', 'replies': [0]}
+    OK = {'shape': 'none'}
+
+    @st.composite
+    def strat(draw):
+        size = draw(st.sampled_from([1, 1, 2]))
+        cfg = {'backend': draw(st.sampled_from(['dict', 'dict', 'disk', 'shelf'])), 'backoff': [5], 'backoff_forever': True,
+               'relay_pool': size, 'announce': True, 'store_pool': None}
+        acts = [['enqueue', {'n': draw(st.integers(1, 2)), 'sender': True, 'body': ''}], ['serve', T]]
+        for _ in range(size):
+            acts.append(['enqueue', {'n': 1, 'sender': True, 'body': ''}])
+            acts.append(['storage'])
+        acts += [['tick'], ['storage'], ['announce', 0], ['storage']]
+        tail = draw(st.lists(st.one_of(st.just(['storage']), st.just(['answer', OK]), st.just(['answer', OK]),
+                                       st.integers(0, 4).map(lambda i: ['release', i, OK]), st.just(['announce', 0]),
+                                       st.just(['tick'])), min_size=2, max_size=12))
+        return cfg, acts + tail
+    return strat()
